@@ -352,6 +352,8 @@ Lemma os_rename_free_preserves s cwd src dst s' :
   WF s' /\ leaves s' = leaves s.
 Proof.
   intros W Hfree. unfold os_rename.
+  destruct (bad_last src || bad_last dst).
+  { destruct (resolve s cwd src false); destruct (resolve s cwd dst false); discriminate. }
   destruct (resolve s cwd src false) as [sp sn|? ?|?] eqn:Rs; try discriminate.
   destruct sp as [|x sp]; [discriminate|].
   unfold lexists in Hfree.
